@@ -459,6 +459,13 @@ _R6_HOLES = (" Round 6 (holes): writes and extending SFC_FILE_TRUNCATE beyond th
 for _p in ("C05", "C06", "C08"):
     CLAIMED[_p]["text"] += _R6_HOLES
 
+CLAIMED["C04"]["text"] += (" Round 7: sd2_reopen_info is universal (lean/SfProps/C04Sd2All.lean): for EVERY accepted configuration (sample size 1..4, 1..1024 channels, rate 1..2^31-1, file name <= 200 bytes) the parser run on the writer's fork returns "
+                            "exactly that sample size, rate and channel count (symbolic walk: value-level evaluator Prog.eval over the piecewise byte function of rsrc; six iterations of the string loop), composed with openInfo in sd2_reopen_info_full.")
+CLAIMED["C06"]["text"] += (" Round 7: ALAC reads ACROSS packet boundaries (lean/SfProps/C06AlacStream.lean): read_stream_cross_packet -- a read of len frames at stream position pos delivers stream[pos..pos+len), cut only at the end of the stream, for every codec core, "
+                            "any packet sizes in 1..2^20 and the table with or without the zero entry of a padded 'pakt' chunk; read_partition_cross_packet, read_sequence_cross_packet.")
+CLAIMED["C01"]["text"] += (" Round 7: ALAC wrapper o codec in the model (lean/SfProps/C01AlacFile.lean): alac_file_roundtrip -- for every list of write calls, the data region and packet table alac_close leaves, read by any sequence of read calls, deliver the frames written, "
+                            "for every codec core satisfying CodecOk (decode o encode = id per packet, 1..2^20 bytes); the real core satisfies it by alac_lossless_exact up to the packet-size bound, which stays a hypothesis (alac_core_file_roundtrip).")
+
 def main():
     checks = []
     for p in PROPS:
